@@ -683,6 +683,20 @@ extern "C" int pmc_main(int argc, char** argv, const pmc_config* cfg, const pmc_
         // debugging aid: run one schedule of --only <spec> given as a comma list, print its trace
         int si = 0;
         for (int s = 0; s < nspecs; ++s) if (only == specs[s].name) si = s;
+        if (getenv("PMC_INPROC"))
+        {
+            // debugging under gdb: no fork at all
+            pmc_exec_rec* rec = (pmc_exec_rec*) mmap(nullptr, sizeof(pmc_exec_rec), PROT_READ | PROT_WRITE, MAP_SHARED | MAP_ANONYMOUS, -1, 0);
+            auto pf = json_int_array("\"c\":[" + choices_arg + "]", "c");
+            rec->spec_index = si;
+            rec->prefix_len = (int) pf.size();
+            memcpy(rec->prefix, pf.data(), pf.size() * 2);
+            rec->trace_mode = 0;
+            rec->limit_mult = 1;
+            pmc_rt_begin(rec);
+            specs[si].run();
+            pmc_rt_end();
+        }
         g_jobs = 1;
         start_slots();
         Item it;
